@@ -430,13 +430,30 @@ def check_route_immutable(rep, route):
 
 
 
+def _self_writes_table(repo):
+    """{FuncInfo: reason} -- the table names a function as ``module::qualname``; it denotes the definition that name
+    resolves to in that module (a class that moved to another module of the package and is imported back is followed)."""
+    out = {}
+    for key, why in SELF_WRITES_TABLE.items():
+        mn, _, qn = key.partition('::')
+        m = repo.try_mod(mn)
+        if m is None or m.external:
+            continue
+        try:
+            out[m.func(qn)] = why
+        except AnalysisError:
+            continue
+    return out
+
+
 def check_middleware_self_writes(rep):
     repo = rep.repo
     # ---- R12.d -----------------------------------------------------------
+    table = _self_writes_table(repo)
     for fi2 in sorted(middleware_functions(repo), key=lambda f: f.key):
         effs = [e for e in effects.effects_in(fi2.node) if e.root == 'self']
-        if fi2.key in SELF_WRITES_TABLE:
-            rep.ok('R12.d', fkey(fi2), 'table entry (%d self-writes): %s' % (len(effs), SELF_WRITES_TABLE[fi2.key]), fi2.mod, fi2.node)
+        if fi2 in table:
+            rep.ok('R12.d', fkey(fi2), 'table entry (%d self-writes): %s' % (len(effs), table[fi2]), fi2.mod, fi2.node)
             continue
         rep.check('R12.d', fkey(fi2), not effs, 'no per-request write to the shared middleware object' if not effs else
                   'middleware function writes its shared instance per request: %s' % [short(e.node) for e in effs], fi2.mod,
